@@ -239,7 +239,9 @@ namespace bluetoe {
 
             void yes_no_response( bool response ) override
             {
-                assert( this->state() == details::sm_pairing_state::user_response_wait );
+                // the pairing might have been aborted or restarted, while the user was thinking
+                if ( this->state() != details::sm_pairing_state::user_response_wait )
+                    return;
 
                 this->state( response
                     ? details::sm_pairing_state::user_response_success
@@ -391,7 +393,9 @@ namespace bluetoe {
 
             void yes_no_response( bool response ) override
             {
-                assert( this->state() == details::sm_pairing_state::user_response_wait );
+                // the pairing might have been aborted or restarted, while the user was thinking
+                if ( this->state() != details::sm_pairing_state::user_response_wait )
+                    return;
 
                 this->state( response
                     ? details::sm_pairing_state::user_response_success
